@@ -103,7 +103,7 @@ impl Check for C18 {
                 let ks = "ks0".to_string();
                 for i in 0..rng.gen_range(3..10u64) {
                     let w = ids[rng.gen_range(0..ids.len())];
-                    sc.events.push(crate::e2::c01::Ev::Op { t: t + 150 + i * rng.gen_range(20..400), node: w, spec: crate::e2::OpSpec { kind: "put".into(), ks: ks.clone(), ids: vec![rng.gen_range(0..6)], level: "None".into(), dup: false } });
+                    sc.events.push(crate::e2::c01::Ev::Op { t: t + 150 + i * rng.gen_range(20..400), node: w, spec: crate::e2::OpSpec { kind: "put".into(), ks: ks.clone(), ids: vec![rng.gen_range(0..6)], level: "None".into(), dup: false, empty: false } });
                 }
                 sc.events.sort_by_key(|e| e.t());
             }
